@@ -14,7 +14,7 @@ RULE = ('three adversaries against real endpoints stepped through their real mai
         'configurations, and presents AUTH/ID variants: valid (control: must be accepted), wrong PSK, the victim\'s own PSK, empty PSK, AUTH '
         'reflected or replayed, AUTH over the wrong message / nonce / SK_p / identity / a modified IKE_SA_INIT message, truncated or extended AUTH, wrong ID '
         'data / type, method substitution (PSK value under RSA method and vice versa, public key used as PSK, unknown methods), RSA signature by another '
-        'key or over other octets. The oracle recomputes, from the victim\'s configured credential and the exact octets the victim sent / received, whether '
+        'key or over other octets; protected CREATE_CHILD_SA / INFORMATIONAL / incomplete IKE_AUTH messages sent IN PLACE of IKE_AUTH right after IKE_SA_INIT. The oracle recomputes, from the victim\'s configured credential and the exact octets the victim sent / received, whether '
         'the presented AUTH+ID are valid; the victim may be ESTABLISHED or emit NEWSA iff they are. (C) MAN IN THE MIDDLE between two real endpoints: '
         'every reference-decoded field of IKE_SA_INIT request / response mutated (SPIs, nonce, KE, group, transform ids / key lengths / order, proposal '
         'number, flags, Message ID), payloads inserted / removed / reordered / replaced, proposal downgrade, and non-semantic rewrites (reserved bits, critical '
@@ -198,6 +198,48 @@ def impostor_case(ck, seed, role, auth, vi, rng):
     if vi % 9 == 0 and role == 'initiator':
         ck.sample({'victim_role': role, 'auth': auth, 'variant': label, 'valid_by_reference': valid, 'victim_established': est, 'newsa': inst})
     return label
+
+
+def skip_auth_case(ck, seed, vi, rng):
+    """The impostor (which needs NO credential for this) completes IKE_SA_INIT and then sends, protected with the fresh keys, something
+    else than IKE_AUTH: the responder must neither install an SA nor become established nor create a successor."""
+    sim, a, b = S.make_pair(seed)
+    sim.case = {'family': 'skip-auth', 'variant': vi}
+    p = party.RefParty(S.A4, S.B4, rng)
+    trs = [{'type': 1, 'id': 12, 'keylen': 256}, {'type': 3, 'id': 12, 'keylen': None}, {'type': 2, 'id': 5, 'keylen': None}, {'type': 4, 'id': 19, 'keylen': None}]
+    sim.inject(b, S.A4, S.B4, p.init_request(trs, 19))
+    if not sim.net or not p.take_init_response(sim.net.pop(0).data):
+        return
+    a4, b4 = bytes([192, 0, 2, 1]), bytes([192, 0, 2, 2])
+    child = [{'type': 1, 'id': 12, 'keylen': 256}, {'type': 3, 'id': 12, 'keylen': None}, {'type': 5, 'id': 0, 'keylen': None}]
+    tsi = {'type': codec.TSI, 'critical': False, 'selectors': [{'tstype': 7, 'ipproto': 6, 'sport': 0, 'eport': 65535, 'saddr': a4, 'eaddr': a4}]}
+    tsr = {'type': codec.TSR, 'critical': False, 'selectors': [{'tstype': 7, 'ipproto': 6, 'sport': 23, 'eport': 23, 'saddr': b4, 'eaddr': b4}]}
+    nonce = {'type': codec.NONCE, 'critical': False, 'data': gen.rb(rng, 32)}
+    sa_child = {'type': codec.SA, 'critical': False, 'proposals': [{'num': 1, 'proto': 3, 'spi': gen.rb(rng, 4), 'transforms': child}]}
+    transport = {'type': codec.NOTIFY, 'critical': False, 'proto': 0, 'spi': b'', 'ntype': 16391, 'data': b''}
+    from vf.ref import groups
+    ke = {'type': codec.KE, 'critical': False, 'group': 19, 'data': groups.dh_public(19, rng.getrandbits(200) | 1)}
+    sa_ike = {'type': codec.SA, 'critical': False, 'proposals': [{'num': 1, 'proto': 1, 'spi': gen.rb(rng, 8), 'transforms': trs}]}
+    variants = [('create-child-sa-instead-of-ike-auth', 36, [tsi, tsr, sa_child, transport, nonce]),
+                ('create-child-sa-with-ike-auth-payload-order', 36, [sa_child, nonce, tsi, tsr, transport]),
+                ('ike-rekey-instead-of-ike-auth', 36, [sa_ike, nonce, ke]),
+                ('informational-instead-of-ike-auth', 37, []),
+                ('informational-delete-ike', 37, [{'type': codec.DELETE, 'critical': False, 'proto': 1, 'spis': []}]),
+                ('ike-auth-without-auth-payload', 35, [{'type': codec.IDI, 'critical': False, 'idtype': ID_A[0], 'data': ID_A[1]}, sa_child, tsi, tsr, transport]),
+                ('ike-auth-without-id-payload', 35, [{'type': codec.AUTH, 'critical': False, 'method': 2, 'data': gen.rb(rng, 32)}, sa_child, tsi, tsr, transport])]
+    for mid in (1, 0):
+        for label, exch, pls in variants:
+            n0 = newsa_count(b)
+            tab0 = len(b.ctl.ike_sas)
+            sim.inject(b, S.A4, S.B4, p.seal(exch, mid, pls, response=False))
+            sim.net.clear()
+            ck.count('skipauth.variants')
+            ck.seen('skipauth.labels', (label, mid))
+            ck.nontrivial(('skip-auth', label, mid))
+            est = any(10 <= s_.state.value < 21 for s_ in b.ctl.ike_sas) or any(s_.new_ike_sa is not None for s_ in b.ctl.ike_sas)
+            if est or newsa_count(b) != n0 or len(b.ctl.ike_sas) > tab0:
+                ck.violation(f'established-or-installed-without-any-auth-exchange:{label}', {'newsa': newsa_count(b) - n0, 'states': [s_.state.name for s_ in b.ctl.ike_sas]}, sim.case)
+                return
 
 
 # ---------------------------------------------------------------------------------------- (C) man in the middle
@@ -558,6 +600,10 @@ def run(ck):
                         continue
                     rng = ck.rng('imp', n)
                     impostor_case(ck, base + n, role, auth, vi, rng)
+    for j in range(4 if not thorough else 40):
+        n += 1
+        if ck.mine(n):
+            skip_auth_case(ck, base + n, j, ck.rng('skip', n))
     # (C)
     for ci, conf in enumerate(MITM_CONFS):
         for which in ('request', 'response'):
@@ -606,5 +652,6 @@ def verdict(ck):
     ck.floor('semantic rewrites', c['mitm.request.semantic'] + c['mitm.response.semantic'], 100)
     ck.floor('octets-only rewrites', c['mitm.request.octets-only'] + c['mitm.response.octets-only'], 50)
     ck.floor('mismatch handshakes', c['mismatch.handshakes'], 30)
+    ck.floor('exchanges sent in place of IKE_AUTH', c['skipauth.variants'], 20)
     ck.floor('accepted AUTH re-verified online', c['mismatch.auth_reverified'], 6)
     return {'rewrite_labels': len(ck.sets['mitm.rewrites'])}
